@@ -152,6 +152,30 @@ def combinators(ex, st, fr, name, args, dty):
                     term = inner.term if isinstance(inner, VSym) else inner.base.term
                     out.append((s2, VAgg(ty, nm, [VSym(('ref', ('field', term, 0, nm)))]), 'ok', ''))
         return out
+    if m == 'filter' and ty == 'Option':
+        out = []
+        for s2, nm, get in enum_split(ex, st, v, ty, names):
+            if nm == 'None':
+                out.append((s2, mk('Option', 'None'), 'ok', ''))
+                continue
+            x = get()
+            cell = 'flt%d' % next(ex.fresh)
+            s2.mem[cell] = x
+            for (s3, r, k, msg) in call_fn_value(ex, s2, fr, args[1], [VRef(cell)]):
+                if k != 'ok':
+                    out.append((s3, None, k, msg))
+                    continue
+                if not isinstance(r, VBool):
+                    return None
+                if ex.feasible(s3.pc + [r.e]):
+                    s4 = s3.fork()
+                    s4.pc.append(r.e)
+                    out.append((s4, mk('Option', 'Some', x), 'ok', ''))
+                if ex.feasible(s3.pc + [z3.Not(r.e)]):
+                    s4 = s3.fork()
+                    s4.pc.append(z3.Not(r.e))
+                    out.append((s4, mk('Option', 'None'), 'ok', ''))
+        return out
     if m in ('cloned', 'copied'):
         out = []
         for s2, nm, get in enum_split(ex, st, v, ty, names):
@@ -352,7 +376,7 @@ def slice_of(ex, st, v):
         if isinstance(inner, VSym):
             return ex.sym_bytes(inner.term)
     if isinstance(v, VSym):
-        return ex.sym_bytes(('deref', v.term))
+        return ex.sym_bytes(v.term)
     return None
 
 
